@@ -248,7 +248,6 @@ func (e *ExpressionAtom) GetSnapshot() string {
 		buff.WriteString(e.VariableName)
 	}
 	if e.ArrayMapSelector != nil && e.ExpressionAtom != nil {
-		buff.WriteString(e.ExpressionAtom.GetSnapshot())
 		buff.WriteString("-[]>")
 		buff.WriteString(e.ArrayMapSelector.GetSnapshot())
 	}
